@@ -478,7 +478,8 @@ KINDS_PROG = {"a.f90": ["module mod_k", "integer :: count", "enum, bind(c)", "en
                         "interface gen", "module procedure push", "end interface gen",
                         "abstract interface", "subroutine cb()", "end subroutine cb", "end interface",
                         "common /blk/ shared", "namelist /nl/ count", "contains",
-                        "subroutine push(self)", "class(stack) :: self", "contains", "subroutine inner()", "end subroutine inner", "end subroutine push",
+                        "subroutine push(self, hook)", "class(stack) :: self", "interface", "subroutine hook()", "end subroutine hook", "end interface",
+                        "contains", "subroutine inner()", "end subroutine inner", "end subroutine push",
                         "subroutine wipe(self)", "type(stack) :: self", "end subroutine wipe",
                         "end module mod_k", "program main", "use mod_k", "integer :: local", "end program main"]}
 
@@ -488,7 +489,7 @@ def _kind_entities(p):
     t = m.types[0]
     ents = {"module": m, "variable": m.variables[0], "type": t, "component": t.variables[0], "binding": t.boundprocs[0],
             "generic interface": m.interfaces[0], "abstract interface": m.absinterfaces[0], "procedure": m.subroutines[0],
-            "dummy argument": m.subroutines[0].args[0], "internal procedure": m.subroutines[0].subroutines[0], "program": p.programs[0],
+            "dummy argument": m.subroutines[0].args[0], "dummy procedure": m.subroutines[0].args[1], "internal procedure": m.subroutines[0].subroutines[0], "program": p.programs[0],
             "program variable": p.programs[0].variables[0]}
     if getattr(m, "enums", None):
         ents["enum"] = m.enums[0]
@@ -526,6 +527,11 @@ def _kind_links(which=None):
                 if url is not None and href is not None:
                     # what the browser opens when the link is followed from the page that shows this documentation
                     href = os.path.normpath(os.path.join(os.path.dirname("/base/" + url.split("#")[0]), href))
+                # an entity without a page of its own is shown on (and its URL is an anchor of) the page of the entity that holds it
+                host = {"dummy argument": p.modules[0].subroutines[0], "dummy procedure": p.modules[0].subroutines[0], "component": p.modules[0].types[0],
+                        "binding": p.modules[0].types[0], "final binding": p.modules[0].types[0], "variable": p.modules[0]}.get(kind)
+                if host is not None and url is not None and url.split("#")[0] != host.get_url():
+                    href = f"(the documentation of this {kind} is shown on {host.get_url()}, its URL says {url})"
                 out[kind] = (url, href, want)
             return out
     finally:
